@@ -126,6 +126,30 @@ impl C12 {
           if last.is_value() { out.nontrivial += 1; let g = s.get(&name); if g != y { out.fail(format!("C12|route-differs|{}:{}", route, locus0), format!("{}; {}", case, stmts.join("; ").replace(&format!("{}", n), "")), format!("y<{}> := x gives {:?}, this route {:?}", k2, y.as_ref().map(|c| c.short()), g.map(|c| c.short()))); } else { out.count(&format!("route_agrees:{}", route)); } }
           else { out.count(&format!("route_rejected:{}", route)); }
         }
+        // a scalar annotated with a sized matrix kind fills that shape with the converted scalar; an option kind converts like the plain kind
+        if let Some(yc) = &y {
+          for (r2, c2) in [(1usize, 1usize), (1, 3), (3, 1), (2, 2)] {
+            out.evaluations += 1;
+            let name = format!("fm{}x{}x{}", n, r2, c2);
+            let of = s.run(&format!("{}<[{}]:{},{}> := x{}", name, k2, r2, c2, n));
+            let fcase = format!("{}; f<[{}]:{},{}> := x", case, k2, r2, c2);
+            match (&of, s.get(&name)) {
+              (Outcome::Value(_), Some(Canon::Matrix(_, gr, gc, ge, _))) => { out.nontrivial += 1; out.count("route_agrees:scalar-to-sized-matrix");
+                if (gr, gc) != (r2, c2) { out.fail(format!("C12|wrong-shape|scalar-to-matrix:{}", locus0), fcase, format!("expected {}x{}, got {}x{}", r2, c2, gr, gc)); }
+                else if ge.iter().any(|e| e != yc) { out.fail(format!("C12|route-differs|scalar-to-matrix:{}", locus0), fcase, format!("y<{}> := x gives {}, the matrix holds {:?}", k2, yc.short(), ge.iter().map(|e| e.short()).collect::<Vec<_>>())); } }
+              (Outcome::Value(_), other) => out.fail(format!("C12|wrong-shape|scalar-to-matrix:{}", locus0), fcase, format!("not a matrix: {:?}", other.map(|x| x.short()))),
+              (Outcome::Panic(m), _) => out.fail(format!("C12|panic|scalar-to-matrix:{}", locus0), fcase, m.clone()),
+              _ => out.count("route_rejected:scalar-to-sized-matrix"),
+            }
+          }
+          out.evaluations += 1;
+          let oo = s.run(&format!("fo{}<{}?> := x{}", n, k2, n));
+          match (&oo, s.get(&format!("fo{}", n))) {
+            (Outcome::Value(_), Some(g)) => { out.nontrivial += 1; if &g != yc { out.fail(format!("C12|route-differs|option-kind:{}", locus0), format!("{}; f<{}?> := x", case, k2), format!("y<{}> := x gives {}, the option kind {}", k2, yc.short(), g.short())); } else { out.count("route_agrees:option-kind"); } }
+            (Outcome::Panic(m), _) => out.fail(format!("C12|panic|option-kind:{}", locus0), format!("{}; f<{}?> := x", case, k2), m.clone()),
+            _ => out.count("route_rejected:option-kind"),
+          }
+        }
       }
       mats.push((v.clone(), src));
       if n == 1 { out.sample(json!({"program": case, "result": s.get(&format!("y{}", n)).map(|c| c.short())})); }
